@@ -504,7 +504,10 @@ def _gen_top(r, m, names, inners, bits_types):
             elif style == "choice":
                 a, _ = r.choice(refs)
                 b, _ = r.choice(refs)
-                v.value, v.vtype = ("?:", _bool_expr(r, s, m), a, ("+", b, ("n", 1))), "int"
+                # the condition must not be a compile-time constant: `true ? a : b` with differently
+                # typed branches fails a static_assert in Choice (known finding of C07)
+                v.value, v.vtype = ("?:", ("==", r.choice(refs)[0], ("n", r.randint(0, 3))), a,
+                                    ("+", b, ("n", 1))), "int"
                 m.features["virtual_choice"] += 1
             elif style == "max":
                 a, _ = r.choice(refs)
@@ -550,7 +553,7 @@ def _gen_top(r, m, names, inners, bits_types):
             f.start = ("+", prev.start, prev.size)
             m.features["$next"] += 1
         elif loc < 0.55:
-            d = _small_int_expr(r, s, m, 40)
+            d = _small_int_expr(r, s, m, 600)
             if d is not None:
                 f.start = d
                 m.features["dynamic_offset"] += 1
